@@ -203,6 +203,21 @@ func OracleC05(ex *Exec) *Obs {
 				o.bad("failed-tx-emits-etx"+why, "top-level failure (%v) but %d ETXs returned", ex.Res.Err, len(got))
 			}
 			o.class("outbound-set:failed-tx")
+			if topExt && !ex.Case.InboundETX && ex.After[Sender.Bytes20()] != nil {
+				// a refused top-level transfer to another chain: the sender pays for gas, nothing else
+				loss := new(big.Int).Sub(ex.PayerBefore, ex.After[Sender.Bytes20()])
+				gas := new(big.Int).Mul(new(big.Int).SetUint64(ex.Res.UsedGas), ex.Case.price)
+				br := "dest-eligible"
+				if !ex.Case.Eligible {
+					br = "dest-ineligible"
+				}
+				if loss.Cmp(gas) != 0 {
+					o.bad("debit-without-etx:TOP-EXT:"+br, "top-level transfer of %s to an out-of-scope address failed (%v), no ETX was recorded, but the sender lost %s beyond gas", ex.Case.value, ex.Res.Err, new(big.Int).Sub(loss, gas))
+				}
+				if ex.Case.value.Sign() > 0 {
+					o.class("TOP-EXT:refused-with-value:" + br)
+				}
+			}
 		} else if !topExt {
 			match := len(got) == len(expected)
 			for i := 0; match && i < len(got); i++ {
@@ -223,6 +238,14 @@ func OracleC05(ex *Exec) *Obs {
 				o.bad("top-level-ext-success-without-single-etx", "%d ETXs", len(got))
 			} else if got[0].Value().Cmp(ex.Case.value) != 0 {
 				o.bad("etx-value-differs:TOP-EXT", "ETX carries %s, message value %s", got[0].Value(), ex.Case.value)
+			}
+			if !ex.Case.InboundETX && ex.After[Sender.Bytes20()] != nil {
+				loss := new(big.Int).Sub(ex.PayerBefore, ex.After[Sender.Bytes20()])
+				want := new(big.Int).Mul(new(big.Int).SetUint64(ex.Res.UsedGas), ex.Case.price)
+				want.Add(want, ex.Case.value)
+				if loss.Cmp(want) != 0 {
+					o.bad("debit-differs-from-etx-value:TOP-EXT", "sender lost %s, gas + stated value is %s", loss, want)
+				}
 			}
 			o.class("outbound-set:top-level-ext")
 		}
